@@ -2,11 +2,14 @@ PLAN = {
     "level": "exploration",
     "quick": [replays("C02"), tape("C02", 20000, size=300)],
     "thorough": [replays("C02"), tape("C02", 500000, size=400)],
-    "class_floors": {"class-B": 0.1, "reset": 0.05, "import": 0.05, "multi-map-connection": 0.02, "encapsulation-depth>=2": 0.02},
+    "class_floors": {"class-B": 0.1, "reset": 0.05, "import": 0.05, "multi-map-connection": 0.02, "encapsulation-depth>=2": 0.02,
+                     # extensions (independent exploration): each is 5-6 % of the cases by construction (10 % for the class B one)
+                     "ext:deep-encapsulation": 0.02, "ext:deep-math": 0.02, "ext:ancestor-namespaces": 0.02, "ext:reals-17-digits": 0.02,
+                     "ext:nonfinite-reals": 0.02, "ext:connection-id-changed": 0.02, "ext:ws-control-chars": 0.03},
 }
 CLAIM = {
     "engine": "rapidcheck-tape",
     "technique": "property-based testing: generated valid and hostile-text models, print/parse round trip against an independent canonical dump",
-    "text": "Random exploration (tens of thousands of generated models per run, all features of the statement) of the print->parse round trip with an oracle that shares no code with Printer/Parser: own dump through public getters, own MathML canonicaliser, libxml2 well-formedness check. Finds content loss, escaping and issue-reporting defects; cannot show absence.",
+    "text": "Random exploration (tens of thousands of generated models per run, all features of the statement, plus documents at the XML depth limit, 17-digit and non-finite unit reals, connection ids changed after creation, tab/LF/CR in attribute text, namespace prefixes declared on the model element) of the print->parse round trip with an oracle that shares no code with Printer/Parser: own dump through public getters, own MathML canonicaliser, libxml2 well-formedness check. Finds content loss, escaping and issue-reporting defects; cannot show absence.",
     "note": "Trusts libxml2 (same version the library links), the harness's dump/canonicaliser and the validity of the model generator (validator consulted lazily before a validator-only claim is judged).",
 }
